@@ -743,7 +743,7 @@ pub fn run(o: &Opts) {
     let mut st = Stats::new();
     let mut sh = Shards::new(&o.out, o.shards, &header("Classify_C13"));
     let n_runs = if o.thorough { 20 } else { 5 };
-    st.rule = format!("generated ledgers biased to multi-commodity accounts, multi-commodity residuals and expression amounts; for each, `okane balance|register|accounts|format` and `balance -X T` (historical and up-to-date, with and without --start/--end, T a commodity of the ledger) run in {} fresh processes (fresh hash keys each); ledgers with SEVERAL independent failures (gen:several-*: amounts without a rate on different dates / accounts / commodities with dates out of file order, failing assertions, unbalanced transactions, a mix with ill-typed expressions, two unconstrained postings and zero rates, several syntax errors) under every command that can fail incl. `primitive eval -X`; what a failing run names (the entry of the `-->` line and the residual, or the amount, target and date of the missing rate) is compared with the model's first failure (book-keeping in file order; conversion in file order / account and commodity order: Model/CanonState.v balance_query_keyed); CSV imports whose header holds near-duplicates of the configured labels (case, blanks, repeated labels), several missing labels, several templates that do not parse, several bad rows: same outcome in every process and the outcome of FieldMap::try_new as modelled (Model/ImpCsv.v fieldmap_new: not found / which column); plus import of the repository's samples, generated rewrite rules, names differing in case, tied conversion chains; a case is one ledger with all its commands, or one import; non-trivial = some printed amount or error carried >= 2 commodities, or the case belongs to a several-failures / import stream; distinct by ledger text or (config, statement)", n_runs);
+    st.rule = format!("generated ledgers biased to multi-commodity accounts, multi-commodity residuals and expression amounts; for each, `okane balance|register|accounts|format` and `balance -X T` (historical and up-to-date, with and without --start/--end, T a commodity of the ledger) run in {} fresh processes (fresh hash keys each); ledgers with SEVERAL independent failures (gen:several-*: amounts without a rate on different dates / accounts / commodities with dates out of file order, failing assertions, unbalanced transactions, a mix with ill-typed expressions, two unconstrained postings and zero rates, several syntax errors) under every command that can fail incl. `primitive eval -X`; what a failing run names (the entry of the `-->` line and the residual, or the amount, target and date of the missing rate) is compared with the model's first failure (book-keeping in file order; conversion in file order / account and commodity order: Model/CanonState.v balance_query_keyed); CSV imports whose header holds near-duplicates of the configured labels (case, blanks, repeated labels), several missing labels, several templates that do not parse, several bad rows: same outcome in every process and the outcome of FieldMap::try_new as modelled (Model/ImpCsv.v fieldmap_new: not found / which column); layered import configurations (2-4 documents whose paths all occur in the SOURCE string as given: all of equal length and different, two of equal length among others, the same path twice, all of different lengths; conflicting account / account_type / commodity and rewrite rules in every document) run as `okane import --config CFG SOURCE` in fresh processes: same output in every process, and the printed ledger read back equals what the C17 model makes of the records under select = stable sort of the matching documents by path length, file order among equals (Run/Classify_C13L.v wraps Run/Classify_C17.v classify); plus import of the repository's samples, generated rewrite rules, names differing in case, tied conversion chains; a case is one ledger with all its commands, or one import; non-trivial = some printed amount or error carried >= 2 commodities, or the case belongs to a several-failures / import stream; distinct by ledger text or (config, statement)", n_runs);
     st.assumptions.push("the clock is an input: no command that reads today's date is run without --now".into());
     let scratch = Scratch::new("c13");
     let (corpus, replay) = corpus_entries(&o.corpus, &o.extra);
@@ -988,6 +988,73 @@ pub fn run(o: &Opts) {
             st.count(&format!("cmd:import-bad-rows:{}", if ok { "ok" } else { "fail" }));
             sh.push(format!("C [] [R {} {} OOpaque]", distinct, coq::bool_(ok)), vec![rep]);
         }
+    }
+    // layered import configurations: 2-4 documents whose paths all occur in the SOURCE string, of
+    // equal and of different lengths, with conflicting scalars and rules; the command is run in N
+    // fresh processes, every run must print the same, and what is printed (read back) must be the
+    // merge of the C17 model: documents by path length, equal lengths in file order
+    {
+        let lay_header = format!("{} Run.Classify_C17 Run.Classify_C13L.\nImport ListNotations.\nOpen Scope N_scope.", crate::c17::HEADER);
+        let g = sh.add_group(&lay_header, if o.thorough { 8 } else { 2 });
+        let cmd_scratch = crate::c17x::CmdScratch::new();
+        let root = cmd_scratch.root_str();
+        let mut cases: Vec<(crate::c17x::Case17Cmd, String)> = Vec::new();
+        // kept in the corpus (past failures) or handed over for replay
+        {
+            let mut files: Vec<std::path::PathBuf> = Vec::new();
+            if let Some(i) = o.extra.iter().position(|a| a == "--replay") {
+                if let Some(p) = o.extra.get(i + 1) {
+                    files.push(p.into());
+                }
+            } else if let Ok(rd) = std::fs::read_dir(&o.corpus) {
+                files = rd.filter_map(|e| e.ok()).map(|e| e.path()).collect();
+                files.sort();
+            }
+            for p in files {
+                if let Ok(v) = std::fs::read_to_string(&p).map_err(|_| ()).and_then(|t| serde_json::from_str::<serde_json::Value>(&t).map_err(|_| ())) {
+                    if let Some(c) = v.get("cmd_case").and_then(|c| serde_json::from_value::<crate::c17x::Case17Cmd>(c.clone()).ok()) {
+                        cases.push((c, "corpus".to_string()));
+                    }
+                }
+            }
+        }
+        if !replay {
+            let n_lay = if o.thorough { 400 } else { 60 };
+            let mut rl = Rng::new(o.seed, 1133);
+            for _ in 0..n_lay {
+                let (c, mode) = crate::c17x::gen_layered_cmd_case(&mut rl, &root);
+                cases.push((c, mode.to_string()));
+            }
+        }
+        for (c, mode) in &cases {
+            let (distinct, term, mut rep, how) = crate::c17x::observe_cmd_n(c, &bin, &cmd_scratch, n_runs.max(10));
+            rep["property"] = json!("C13");
+            rep["layered"] = json!(mode);
+            let given = crate::c17x::given_string(&c.fs, &root);
+            let matching: Vec<&crate::impgen::Doc> = c.docs.iter().filter(|d| given.contains(&d.path)).collect();
+            let mut tie = false;
+            for (i, a) in matching.iter().enumerate() {
+                for b in matching.iter().skip(i + 1) {
+                    if a.path.len() == b.path.len() && a.path != b.path {
+                        tie = true;
+                    }
+                }
+            }
+            st.eval(&(rep["config_yaml"].as_str().unwrap_or("").to_string(), given.clone(), rep["statement"].as_str().unwrap_or("").to_string()), true);
+            st.count("gen:import-layered");
+            st.count(&format!("import-layered:paths:{}", mode));
+            st.count(&format!("import-layered:documents matching the source:{}", matching.len()));
+            if tie {
+                st.count("import-layered:two matching documents with different paths of equal length");
+            }
+            st.count(&format!("cmd:import-layered:{}", how));
+            if tie && how == "printed a ledger" && st.dist.get("import-layered:sampled").copied().unwrap_or(0) < 1 {
+                st.count("import-layered:sampled");
+                st.sample(rep.clone(), 12);
+            }
+            sh.push_group(g, format!("CL {} ({})", distinct, term), vec![rep]);
+        }
+        drop(cmd_scratch);
     }
     // ledgers with several syntax errors: every command stops at the first one in the file
     if !replay {
